@@ -68,12 +68,27 @@ static int writer_done = 0, accepting_h = 1;
 static int progress_obj;
 static int writer_tid = -1;
 
+#ifdef RT_MODE
+// real threads: the event buffer and the sequence counter are shared
+#include <pthread.h>
+static pthread_mutex_t emu = PTHREAD_MUTEX_INITIALIZER;
+#define EMIT_LOCK() pthread_mutex_lock(&emu)
+#define EMIT_UNLOCK() pthread_mutex_unlock(&emu)
+#define NEXT_SEQ() __atomic_add_fetch(&gseq, 1, __ATOMIC_SEQ_CST)
+#else
+#define EMIT_LOCK()
+#define EMIT_UNLOCK()
+#define NEXT_SEQ() (++gseq)
+#endif
+
 static void
 emit(long seq, const char* txt)
 {
+    EMIT_LOCK();
     EV[nev].seq = seq;
     snprintf(EV[nev].txt, sizeof EV[nev].txt, "%s", txt);
     nev++;
+    EMIT_UNLOCK();
 }
 
 static int
@@ -86,6 +101,7 @@ cmp_ev(const void* a, const void* b)
 static void
 flush_trace(const char* last)
 {
+    EMIT_LOCK();
     qsort(EV, nev, sizeof *EV, cmp_ev);
     FILE* f = fopen(outpath, "w");
     if (!f)
@@ -113,7 +129,7 @@ lock_hook(void* lock, int is_cv)
     if (lock != (void*)&ch.lock)
         return;
     int t = vs_self();
-    cur_seq[t] = ++gseq;
+    cur_seq[t] = NEXT_SEQ();
     if (is_cv) {
         char b[128];
         snprintf(b, sizeof b, "{\"e\":\"WBlock\",\"n\":%d,\"t\":%d}", 0, t);
@@ -169,8 +185,13 @@ on_hang(const char* kind)
     if (!probe_done && !strcmp(kind, "deadlock") && writer_tid >= 0 && vs_is_blocked_on_cv(writer_tid)) {
         probe_done = 1;
         probing = 1;
+#ifdef RT_MODE
+        condition_variable_notify_all(&ch.notify_space_available); // a broadcast nobody asked for: always legal
+        return;
+#else
         if (vs_spurious_wake_all() > 0)
             return;
+#endif
     }
     if (draining || stop_after_schedule) {
         // scripted replays: the scripts are prefixes of behaviours, a writer left waiting for readers that have
@@ -207,7 +228,7 @@ writer(void* arg)
     char b[256];
     for (int k = 0; k < nw; k++) {
         int n = wprog[k].n;
-        cur_seq[me] = ++gseq;
+        cur_seq[me] = NEXT_SEQ();
         uint8_t* q = (uint8_t*)channel_write_map(&ch, n);
         long off = q ? (long)(q - ch.data) : -1;
         if (q && (off < 0 || off + n > CAP))
@@ -230,7 +251,7 @@ writer(void* arg)
             // fill in the payload before committing; whether the commit counts is decided under the lock by
             // channel_write_unmap (is_accepting_writes), so the byte values are chosen there too: the harness
             // mirrors that decision with the flag value it sees at the linearization point (lock_hook).
-            cur_seq[me] = ++gseq;
+            cur_seq[me] = NEXT_SEQ();
             long base = committed;
             if (off >= 0 && off + n <= CAP)
                 for (int i = 0; i < n; i++)
@@ -245,7 +266,7 @@ writer(void* arg)
             snprintf(b, sizeof b, "{\"e\":\"WCommit\",\"t\":%d}", me);
             emit(cur_seq[me], b);
         } else {
-            cur_seq[me] = ++gseq;
+            cur_seq[me] = NEXT_SEQ();
             channel_abort_write(&ch);
             snprintf(b, sizeof b, "{\"e\":\"WAbort\",\"t\":%d}", me);
             emit(cur_seq[me], b);
@@ -271,7 +292,7 @@ static long
 do_rmap(int r, int me, long* off_out)
 {
     char b[400], seen[200];
-    cur_seq[me] = ++gseq;
+    cur_seq[me] = NEXT_SEQ();
     struct slice s = channel_read_map(&ch, &RD[r].rd);
     long len = (long)(s.end - s.beg);
     if (len > (1 << 20))
@@ -294,7 +315,7 @@ do_runmap(int r, int me, long off, long len, int c)
 {
     char b[400], seen[200];
     seen_list(seen, sizeof seen, off, len);
-    cur_seq[me] = ++gseq;
+    cur_seq[me] = NEXT_SEQ();
     channel_read_unmap(&ch, &RD[r].rd, c);
     snprintf(b, sizeof b, "{\"e\":\"RUnmap\",\"r\":%d,\"c\":%d,\"seen\":%s,\"t\":%d}", r + 1, c, seen, me);
     emit(cur_seq[me], b);
@@ -370,7 +391,7 @@ controller(void* arg)
     for (int i = 0; i < cdelay; i++)
         vs_yield("delay");
     for (int k = 0; k < ncp; k++) {
-        cur_seq[me] = ++gseq; // unlocked store: linearizes at call entry; a locked implementation re-stamps it
+        cur_seq[me] = NEXT_SEQ(); // unlocked store: linearizes at call entry; a locked implementation re-stamps it
         channel_accept_writes(&ch, cprog[k]);
         accepting_h = cprog[k];
         snprintf(b, sizeof b, "{\"e\":\"Accept\",\"b\":%s,\"t\":%d}", cprog[k] ? "true" : "false", me);
